@@ -81,6 +81,10 @@ func main() {
 	os.Exit(code)
 }
 
+// shapeProps: properties whose rules read integers mathematically (shape arithmetic); they carry premise I0.
+var shapeProps = map[string]bool{"C01": true, "C02": true, "C03": true, "C04": true, "C05": true, "C10": true, "C12": true,
+	"C13": true, "C14": true, "C15": true, "C20": true}
+
 func runCheck(c *Checker, f func(*Checker), dir string) (code int) {
 	defer func() {
 		if r := recover(); r != nil {
@@ -110,6 +114,9 @@ func runCheck(c *Checker, f func(*Checker), dir string) (code int) {
 		c.sums = nil
 		c.sums = map[*ssa.Function]*Summary{}
 		f(c)
+		if shapeProps[c.Prop] {
+			checkI0(c, c.Prop+"-I0")
+		}
 	}
 	return c.finish()
 }
